@@ -371,6 +371,16 @@ def _schedule_traffic(rr):
     for idx, item in enumerate(rr.plan.get("traffic") or []):
         world.loop.at(t0 + item["t_us"] / 1e6, fire, idx, item)
 
+    def status(t_us, code):
+        # the Tridonic gateway volunteers bus status reports (0x77 with a status other than
+        # "framing error": bus ok, DALI mode, shorted, ...): no frame, no answer - nothing to anybody
+        if getattr(dev, "fd", None) is not None and hasattr(dev, "R_INFO"):
+            dev.report(dev.MODE_OBSERVE, dev.R_INFO, code, 0, int(round(world.loop.time() * 1e6)))
+            world.fault("bus-status-report")
+
+    for t_us, code in rr.plan.get("bus_status") or []:
+        world.loop.at(t0 + (t_us + 0.37) / 1e6, status, t_us, code)
+
 
 async def _start_second_line(rr, sl):
     """A second Tridonic gateway (another DALI line) driven by a second driver object in the same
